@@ -72,6 +72,9 @@ static CV check20(const CliCase &c) {
   if (c.longname) { std::string base(c.longname, 'n'); praw = dir + "/" + base + "_raw"; oname = dir + "/" + base; }
   { FILE *f = fopen(src.c_str(), "wb"); if (!f) return bad("harness", "cannot write source"); if (!text.empty()) fwrite(text.data(), 1, text.size(), f); fclose(f); }
   unlink(praw.c_str()); unlink((oname + ".bin").c_str());
+  // half of the runs find an older, longer output file in place: it has to be replaced, not patched
+  bool stale = (hz::fnv(ser20(c)) >> 5) & 1;
+  if (stale && (c.outkind == 1 || c.outkind == 2)) { std::string path = c.outkind == 1 ? praw : oname + ".bin"; FILE *f = fopen(path.c_str(), "wb"); if (f) { std::string junk(want.size() + 1 + hz::fnv(ser20(c)) % 300, (char)0xee); fwrite(junk.data(), 1, junk.size(), f); fclose(f); } }
   std::vector<std::string> av{asmline_path()}; for (int m : c.modeflags) av.push_back(MODEFLAGS[m]);
   if (c.chunk) { av.push_back("-c"); av.push_back(std::to_string(c.chunk)); } if (c.brk) { av.push_back("-b"); av.push_back(std::to_string(c.brk)); } if (c.p) av.push_back("-p"); if (c.r) av.push_back("-r");
   auto rel = [&](const std::string &p) { return p.substr(dir.size() + 1); };
